@@ -19,6 +19,12 @@ import sympy
 
 from . import circuits as GC
 
+
+def _def_width(d):
+    """qubits of a custom gate definition, from its public matrix"""
+    return int(d.matrix.shape[0]).bit_length() - 1
+
+
 # wrapper shapes: via the public modifiers and via the raw constructors
 WRAPPERS = ["plain", "c1", "c2", "C1", "dagger", "D", "c1.dagger", "dagger.c1", "c1.c1", "C1.C1", "D.C1"]
 _EXTRA = {"plain": 0, "c1": 1, "c2": 2, "C1": 1, "dagger": 0, "D": 0, "c1.dagger": 1, "dagger.c1": 1, "c1.c1": 2,
@@ -118,7 +124,7 @@ def sibling_ops(rng, width, params, n_ops, custom_defs=None, fixed=0.3, max_arit
         if rng.random() < 0.4:  # only parameter-less gates: every parameter tuple is ()
             bases = [b for b in bases if tab[b[1]]["kind"] == "fixed"]
     for d in custom_defs or []:
-        if d._n_qubits <= max_arity:
+        if _def_width(d) <= max_arity:
             bases.append(("custom", d))
     wrappers = rng.sample(WRAPPERS, rng.randint(1, 3))
     if len(bases) == 1 and len(wrappers) == 1 and rng.random() < 0.8:
